@@ -601,7 +601,26 @@ def m_partition(ex, st, args, kwargs, node):
 
 
 def zero_sums():
-    return {"n": z3.IntVal(0), "LB": z3.IntVal(0), "RB": z3.IntVal(0), "NW": z3.IntVal(0)}
+    return {"n": z3.IntVal(0), "LB": z3.IntVal(0), "RB": z3.IntVal(0), "NW": z3.IntVal(0), "cat": sval("")}
+
+
+def cat2(a, b):
+    """a ++ b on string terms, the empty literal dropped"""
+    if z3.is_string_value(a) and z3_str_value(a) == "":
+        return b
+    if z3.is_string_value(b) and z3_str_value(b) == "":
+        return a
+    return z3.Concat(a, b)
+
+
+def cat_of(d):
+    """round 7: the CONTENT ghost of a list of str = the concatenation of its items in list order (what `"".join` returns);
+    a summary that never recorded it (itertext, lists a call appended to) gets an unconstrained one"""
+    if d is None:
+        return None
+    if d.get("cat") is None:
+        d["cat"] = z3.String(fresh_name("cat"))
+    return d["cat"]
 
 
 def sums_of(st, ref):
@@ -615,6 +634,10 @@ def sums_of(st, ref):
         d = {"n": z3.IntVal(len(o.data))}
         for h in HN:
             d[h] = z3.Sum([hom(h, x.t) for x in o.data]) if o.data else z3.IntVal(0)
+        c_ = sval("")
+        for x in o.data:
+            c_ = cat2(c_, x.t)
+        d["cat"] = c_
         return d
     return None
 
@@ -632,6 +655,8 @@ def m_join(ex, st, args, kwargs, node):
     for h in HN:
         st.assume(HOMS[h][0](j) == sm[h] + gaps * HOMS[h][1](sep.const()))
     st.assume(z3.Implies(n == 0, j == sval("")))
+    if sep.const() == "":
+        st.assume(j == cat_of(sm))          # "".join(xs) IS the concatenation of the items (content ghost, round 7)
     st.ghost["joins"] = st.ghost.get("joins", ()) + ((sep.const(), lst.ref, j),)
     return [(st, VStr(j))]
 
@@ -778,6 +803,7 @@ class C19Executor(Executor):
         d["n"] = d["n"] + 1
         for h in HN:
             d[h] = d[h] + hom(h, v.t)
+        d["cat"] = cat2(cat_of(w.data), v.t)
         w.data = d
 
     def is_strlist(self, st, ref):
@@ -869,6 +895,8 @@ class C19Executor(Executor):
                 for h in HN:
                     f = HOMS[h][0]
                     fs.append(hom(h, prefix(t, i + 1)) == hom(h, prefix(t, i)) + f(ch))
+                if self.contract is not None and self.contract.target.endswith("::convert_greek_and_symbols"):
+                    fs += conv_def_instances(t, i)
                 return fs
             return z3.Length(t), (lambda i: VStr(z3.SubString(t, i, 1))), facts
         return None
@@ -920,6 +948,7 @@ class C19Executor(Executor):
                 d = {k: z3.Int(fresh_name(f"acc{ref}.{k}")) for k in ("n",) + HN}
                 for k in d:
                     st.assume(d[k] >= 0)
+                d["cat"] = z3.String(fresh_name(f"acc{ref}.cat"))
                 st.heap[ref] = HeapObj("slist", d, None, o.fresh)
             else:
                 st.heap[ref] = HeapObj("unk", None, o.cls, False)
@@ -1053,6 +1082,21 @@ def prefix(t, k):
     return z3.simplify(z3.SubString(t, z3.IntVal(0), k))
 
 
+# ---- round 7: CONV is a DEFINED spec function (the char-wise map), no longer a bare "function of its argument" --------------
+#   CONV("") = ""        CONV(s ++ c) = CONV(s) ++ G1(c)   (c one character)        G1(c) = GREEK_TO_LATEX[c] if c is a key, else c
+# Only instances of the two defining equations are handed to the solver (on the prefixes of the iterated string); the table is
+# the evaluated module constant of the real source (its sanity is the `tables` obligations).
+GREEK_SPEC: dict = {}
+
+
+def G1(ch):
+    return ite_chain([(ch == sval(k), sval(v)) for k, v in GREEK_SPEC.items() if isinstance(k, str) and isinstance(v, str)], ch)
+
+
+def conv_def_instances(t, i):
+    return [CONV(prefix(t, i + 1)) == z3.Concat(CONV(prefix(t, i)), G1(z3.SubString(t, i, 1)))]
+
+
 EXECUTOR = C19Executor
 
 
@@ -1166,7 +1210,7 @@ def acc_pairs(lc):
     out = [(sums_of(lc.st, r), sums_of(lc.entry, r)) for r in lc.extra.get("accs", ())]
     for name in lc.extra.get("svars", ()):
         a, b = lc.st.lookup(name), lc.entry.lookup(name)
-        out.append((H3(a.t) if isinstance(a, VStr) else None, H3(b.t) if isinstance(b, VStr) else None))
+        out.append((dict(H3(a.t), cat=a.t) if isinstance(a, VStr) else None, dict(H3(b.t), cat=b.t) if isinstance(b, VStr) else None))
     return out
 
 
@@ -1181,7 +1225,9 @@ def greek_loop_inv(lc):
         return z3.BoolVal(False)                                  # only loops over the characters of `text`
     hp = H3(prefix(t, lc.i))
     now = pairs[0][0]
-    return z3.And(bal_of(sm) == bal_of(hp), D_of(sm) >= D_of(hp), now["LB"] >= 0, now["RB"] >= 0, now["NW"] >= 0)
+    # round 7 (content): what has been accumulated so far IS the char-wise map of the characters consumed so far
+    content = cat_of(now) == cat2(cat_of(pairs[0][1]), CONV(prefix(t, lc.i)))
+    return z3.And(bal_of(sm) == bal_of(hp), D_of(sm) >= D_of(hp), now["LB"] >= 0, now["RB"] >= 0, now["NW"] >= 0, content)
 
 
 def verifying(c):
@@ -1344,11 +1390,14 @@ def contracts(reg):
         greek = const_value(m, "GREEK_TO_LATEX")
         # the executor reads the same evaluated tables (whatever pure expression builds them in the source)
         reg.module_consts[(OMML, "GREEK_TO_LATEX")] = ops.lift(dict(greek))
+        GREEK_SPEC.clear()
+        GREEK_SPEC.update(dict(greek))
         if skip_tags(m) is not None:
             from pyvc.values import VSetC
             reg.module_consts[(OMML, "_SKIP_TAGS")] = VSetC(skip_tags(m), "_SKIP_TAGS")
     except (ValueError, TypeError):
         greek = {}
+        GREEK_SPEC.clear()
     fn_conv = m.functions["convert_greek_and_symbols"]
     fn_omml = m.functions["omml_to_latex"]
 
@@ -1360,6 +1409,7 @@ def contracts(reg):
         t = A0(c)
         if isinstance(t, VStr):
             fs += str_facts(t.t)
+        fs.append(CONV(sval("")) == sval(""))            # defining equation of the spec function (round 7)
         return z3.And(fs) if fs else z3.BoolVal(True)
 
     def tx(c):
@@ -1381,6 +1431,9 @@ def contracts(reg):
             ("counts-nonneg", lambda c: z3.And([v >= 0 for v in H3(c.result.t).values()])),
             ("balance-preserved", lambda c: bal_of(H3(c.result.t)) == bal_of(H3(tx(c)))),
             ("no-lone-brace", lambda c: D_of(H3(c.result.t)) >= D_of(H3(tx(c)))),
+            # round 7: the result IS the char-wise map of the argument (every character once, in order, table keys replaced by
+            # their commands).  This is what call sites use (`result_maker` = CONV(text)): verified here, no longer assumed.
+            ("is-the-charwise-map-of-its-argument", lambda c: c.result.t == CONV(tx(c)) if isinstance(c.result, VStr) else z3.BoolVal(False)),
         ],
         loops={"*": LoopSpec(inv=greek_loop_inv)},
         note="char-wise map through GREEK_TO_LATEX: total on str, preserves brace balance",
@@ -1709,8 +1762,10 @@ ASSUMED_MODELS = [
     "Element.itertext(): a finite sequence of str (brace-free in a brace-free tree), never raises",
     "str.split(sep): at least one part; str.strip(): removes only whitespace; str.index(sub): lowest occurrence or ValueError",
     "sep.join(list of str): counts add up (+ (n-1) * count(sep))",
-    "convert_greek_and_symbols is a function of its argument (CONV) at call sites",
 ]
+# round 7: "convert_greek_and_symbols is a function of its argument (CONV) at call sites" is no longer assumed: CONV is the
+# DEFINED char-wise map and `ensures#is-the-charwise-map-of-its-argument` proves result == CONV(text) on the real body; the
+# call-site view (result_maker = CONV(text)) is exactly that clause.
 ASSUMPTIONS = ["PY-STR", "PY-EXC", "PY-REC (modular recursion; decreases on subtree size)", "TREE-FINITE",
                "PY-ORDER", "'balanced' = equal numbers of '{' and '}' (DESIGN App. B)"]
 BOUNDED = ["replay grammar (round 4): every structure nested in every operand slot / matrix cell of every structure, m:subHide / "
